@@ -17,7 +17,7 @@ EXTENDS NoiseIns, Json
 CONSTANTS Insts, Longs, Conds, Noises, PairEntries, MeasLists, MModels, GateModels, InsCircs, InsCfgs, InsMeas
 
 Singles == [i \in 1..Len(Insts) |-> <<Insts[i]>>]
-Doubles == [k \in 1..(Len(Insts) * Len(Insts)) |-> <<Insts[(k - 1) \div Len(Insts) + 1], Insts[(k - 1) % Len(Insts) + 1]>>]
+Doubles == [k \in 1..(Len(Insts) * Len(Insts)) |-> <<Insts[(k - 1) \div Len(Insts) + 1], Insts[((k - 1) % Len(Insts)) + 1]>>]
 Circs == Singles \o Doubles \o Longs
 Circs2 == Singles \o Longs
 NoCfg == [pos |-> "none", types |-> <<>>, before |-> FALSE, nz |-> <<>>]
